@@ -45,6 +45,12 @@ func propGen(prop, tier string, idx int) GenOpts {
 		}
 		o.WOp = [8]int{0, 14, 4, 2, 0, 0, 0, 0}
 		o.MaxOps = 6
+		o.PFocus = 500
+		// "a failed construction yields no instance and may be retried"
+		if idx%4 == 3 {
+			o.FaultBudget = [4]int{2, 5, 3, 0}
+			o.WFault = [4]int{3, 2, 0, 0}
+		}
 	case "C03":
 		o.WLife = [3]int{3, 3, 6}
 		o.PMulti, o.PResult = 150, 150
@@ -57,6 +63,8 @@ func propGen(prop, tier string, idx int) GenOpts {
 		o.PMulti, o.PResult, o.PAs, o.PName, o.PGroup, o.PParamObj = 200, 250, 300, 250, 300, 600
 		o.PIgnored, o.POptionalMissing, o.PGroupDep = 120, 200, 500
 		o.PProbeUnregistered = 250
+		o.NoMultiOpts, o.NoResultGroup = false, false
+		o.PResultGroup = 300
 		conc(1, 1)
 		o.WOp = [8]int{0, 12, 6, 2, 0, 0, 0, 0}
 		o.MaxOps = 10
@@ -84,6 +92,8 @@ func propGen(prop, tier string, idx int) GenOpts {
 		o.PGroupDep, o.PGroup, o.PParamObj = 500, 300, 600
 	case "C09":
 		conc(2, 4)
+		o.PFocus = 300
+		o.PMulti, o.PResult, o.PAs = 180, 180, 250
 		o.WOp = [8]int{0, 10, 3, 5, 4, 2, 1, 0}
 		o.FaultBudget = [4]int{7, 3, 0, 0}
 		o.WFault = [4]int{3, 2, 0, 0}
@@ -101,7 +111,13 @@ func propGen(prop, tier string, idx int) GenOpts {
 	case "C11":
 		o.PDisposable = 900
 		conc(1, 1)
-		o.WOp = [8]int{0, 10, 3, 5, 3, 0, 0, 0}
+		o.WOp = [8]int{0, 10, 3, 6, 3, 0, 0, 0}
+		o.MaxOps = 12
+		if idx%2 == 1 {
+			// the order must hold whatever Close methods fail
+			o.FaultBudget = [4]int{3, 4, 3, 1}
+			o.WFault = [4]int{0, 0, 0, 5}
+		}
 	case "C12":
 		o.PDisposable = 900
 		conc(1, 4)
@@ -141,6 +157,10 @@ func propGen(prop, tier string, idx int) GenOpts {
 		conc(1, 2)
 		o.WOp = [8]int{0, 8, 2, 6, 1, 1, 3, 0}
 		o.MaxScopeDepth = 3
+	}
+	switch prop {
+	case "C09", "C10", "C11", "C12", "C13", "C14":
+		o.PTree = 300
 	}
 	if tier == "thorough" {
 		o.MaxRegs += 2
@@ -692,8 +712,8 @@ func writeEvidence(prop, tier string, seed uint64, tot *Stats, nSched, nCases in
 		"violations": len(tot.Violations),
 	}
 	b, _ := json.MarshalIndent(ev, "", " ")
-	os.MkdirAll(filepath.Join(verifDir, "evidence"), 0o755)
-	os.WriteFile(filepath.Join(verifDir, "evidence", prop+".json"), b, 0o644)
+	os.MkdirAll(filepath.Join(outDir, "evidence"), 0o755)
+	os.WriteFile(filepath.Join(outDir, "evidence", prop+".json"), b, 0o644)
 }
 
 func levelOf(prop string) string {
